@@ -130,7 +130,7 @@ struct WorldQ : World {
   bool enabled(const std::string &oracle) const;
   std::set<std::string> oracles_off, oracles_on;
   // C10: configuration in force (what the daemon last read successfully)
-  RouteConf rc_force, rc_cand; bool rc_valid = false, rc_reading = false, rc_failed = false, rc_seen_locals = false, rc_seen_vdoms = false; std::string rc_me;
+  RouteConf rc_force, rc_cand; bool rc_valid = false, rc_reading = false, rc_failed = false, rc_seen_locals = false, rc_seen_vdoms = false; std::string rc_me; int rc_hup_pid = 0; bool rc_hup_owed = false; int rc_hup_selects = 0;   // a HUP whose handler ran obliges this daemon process to start a reread
   void c10_on_send_event(const Event &e); void c10_check_preprocessed(GMsg *m); void c10_check_command(const SpawnCmd &c, GMsg *m);
   // C14 reference configuration
   std::map<std::string, std::string> vdoms_ref; std::string bfrom = "MAILER-DAEMON", bhost = "sim.example", dbto = "postmaster", dbhost = "sim.example"; int note_counter = 0;
